@@ -139,6 +139,18 @@ def _cs(c):
     return canon_str(c)
 
 
+class MappingPurityDependent(MappingPurity):
+    """Grammars with dependent refinements, including contexts in which a production cannot be
+    completed (the creation then backtracks to another production): the retry must leave no trace
+    that a later mapping could see."""
+
+    name = "mapping_purity_dependent_and_infeasible"
+    flags = Flags(dependent=True, infeasible=True, user_mh=True, max_concrete=6, concrete_start=True)
+
+    def budget(self, tier):
+        return (60, 4) if tier == "quick" else (300, 8)
+
+
 class MappingPurityPlainDsge(MappingPurity):
     """dSGE on grammars without refined fields and bare ints/floats (the confirmed dSGE
     finding - metahandlers draw from the shared stream - is excluded by construction)."""
@@ -177,4 +189,4 @@ class DeciderSharedWithTree(MappingPurity):
         return st.builds(lambda c, e: {**c, "ops": c["ops"] + e}, base, extra)
 
 
-FACETS = [MappingPurity(), MappingPurityPlainDsge(), MappingPurityStack(), DeciderSharedWithTree()]
+FACETS = [MappingPurity(), MappingPurityDependent(), MappingPurityPlainDsge(), MappingPurityStack(), DeciderSharedWithTree()]
